@@ -161,7 +161,7 @@ class Subjac(object):
         # the metadata is shared with any jacobian that used it before, and such a jacobian may
         # have been dropped while it was complex (under complex step).
         val = self.info['val']
-        if hasattr(val, 'dtype') and val.dtype.kind != np.dtype(dtype).kind:
+        if hasattr(val, 'dtype') and val.dtype.kind == 'c' and np.dtype(dtype).kind == 'f':
             self.set_dtype(np.dtype(dtype))
 
     def __repr__(self):
